@@ -52,7 +52,12 @@ def main():
             print('demo with change: exit %d' % rc)
         for pid in [p for p in args.props.split(',') if p]:
             t0 = time.time()
-            rc, out = sh('./check %s --tier %s --no-evidence' % (pid, args.tier), cwd=VERIF)
+            try:
+                rc, out = sh('./check %s --tier %s --no-evidence' % (pid, args.tier), cwd=VERIF, timeout=2400)
+            except subprocess.TimeoutExpired:
+                sh("pkill -9 -f 'vf.cli %s' || true" % pid)
+                rc, out = 124, 'timeout'
+
             viol = [l for l in out.splitlines() if l.startswith('VIOLATION')]
             summary = [l for l in out.splitlines() if l.startswith('property=')]
             clauses = [l.strip() for l in out.splitlines() if l.strip().startswith('clauses=')][:2]
